@@ -288,6 +288,26 @@ func checkC01(r *core.Run, p *core.Program) {
 	r.Rule("C01.chunk-header", "the chunk header is written as (count << 1) | continuation and read as (header >> 1, header & 1 == 1).")
 	r.Rule("C01.time-table", "each compact-time kind is written with the code whose decoder case reads the same kind.")
 	r.Rule("C01.encoder-state", "the CBE encoder and writer re-initialise, on every path of their per-document entry points, every field they modify while encoding (a writer that keeps the previous document's string sink sends array contents to the wrong destination).")
+	r.Rule("C01.no-unsafe-views", "no library package other than internal/arrays (judged by C26) imports package unsafe: in particular no decoded string or slice is a reinterpreted view of the reader's reused buffer.")
+	{
+		nPk := 0
+		for _, rel := range core.LibraryPackages {
+			if rel == "internal/arrays" || rel == "cte/parser" {
+				continue
+			}
+			nPk++
+			pk := p.Pkg(rel)
+			for _, file := range pk.Syntax {
+				for _, imp := range file.Imports {
+					if imp.Path.Value == `"unsafe"` {
+						r.Fail("C01.no-unsafe-views", rel+"|imports unsafe", imp.Pos(), "package "+rel+" imports unsafe: a value handed to the event receiver can then be a view of a buffer the decoder reuses, and changes after the event returned")
+					}
+				}
+			}
+		}
+		r.Pass("C01.no-unsafe-views", "library packages|no unsafe outside internal/arrays", token.NoPos, "")
+		r.Count("C01.no-unsafe-views packages scanned", nPk)
+	}
 	r.NotDecide("value equality of payloads (integer width selection is C22; float bit patterns, NaN payloads, time fields and the third-party ULEB128/compact-float/compact-time codecs are runtime-valued)")
 	r.Assume("negative zero written as the negative 8-bit integer form with value 0 and float specials written as decimal-float specials cross event families by design (CE specification); they are exempt from the same-family rule")
 
